@@ -18,7 +18,9 @@ RULE = ("fromU: every rectangular nest over {default, v} (quick: all dims with <
         "small tree incl. explicit defaults / empty sub-fibers, rank-0 tensors, names, non-zero defaults, and "
         "tensors transformed by flatten (tuple/pair/linear), split, swizzle, swap; random: all (shape, density, "
         "default) over small grids x seeds. non-trivial = fromU: a non-default and a default entry both occur; "
-        "yaml: at least one stored element; random: at least one hit and (density<1 or default hit) ")
+        "yaml: at least one stored element; random: at least one hit and (density<1 or default hit). Widening: "
+        "format U on every subset of ranks, float/negative defaults, multi-digit coordinates, special names / rank ids, "
+        "declared shapes, inner defaults, fibers with declared shapes, double flatten, deprecated loader, extents 10-12 ")
 
 FLOATS = [0.5, 1.5, -2.25, 3.125, 7.0, 0.0]
 INTS = [1, 2, -3, 7, 0, 5]
@@ -185,11 +187,131 @@ def _gen_random(rng, tier):
                "dflt": dflt}
 
 
+NAMES_WIDE = ["null", "123", "yes", " lead", "\u00e9", "'q'", "a\nb", "~", "[x]", "{k: v}", "#c", "0x1F"]
+DFLTS_WIDE = [0, 7, 0.5, 7.0, -3]
+CMAPS = [[9, 10, 100, 101, 1000], [1, 9, 10, 11, 99], [0, 10, 20, 100, 200]]
+
+
+def _subsets(n):
+    for k in range(1, 2 ** n):
+        yield [i for i in range(n) if k >> i & 1]
+
+
+def _gen_wide(rng, tier):
+    """input classes added by the widening round: rank format U (Tensor.setFormat / an unowned
+    fiber's own RankAttrs), float and negative defaults, multi-digit coordinates, YAML-special names
+    and rank ids, declared shapes larger than needed, fibers whose own default differs from the
+    tensor's, fibers with declared shapes, twice-flattened tensors, larger extents"""
+    quick = tier == "quick"
+    # --- fromU under format U: every small nest x every non-empty set of U ranks
+    for depth in (1, 2, 3):
+        lim = 4 if (depth < 3 or not quick) else 2
+        for dims in _dims_upto(depth, lim):
+            n = 1
+            for x in dims:
+                n *= x
+            for dflt, v in ((0, 3), (7, 0)):
+                for bits in itertools.product([False, True], repeat=n):
+                    nest = _nest_from_flat(dims, [v if b else dflt for b in bits])
+                    for fmt in _subsets(depth):
+                        for kind in ("fiber", "tensor"):
+                            yield {"prop": PROP, "op": "fromU", "kind": kind, "d": depth, "dflt": dflt,
+                                   "dims": dims, "nest": nest, "fmt": fmt}
+    for i in range(300 if quick else 12000):
+        depth = rng.choice([1, 2, 2, 3, 4])
+        dims = [rng.choice([1, 2, 3, 4]) for _ in range(depth)]
+        if depth <= 2 and rng.random() < 0.3:
+            dims[rng.randrange(depth)] = rng.choice([10, 11, 12])
+        dflt = rng.choice(DFLTS_WIDE)
+        pool = rng.choice([INTS, FLOATS, INTS + FLOATS])
+        nest = _rand_nest(rng, dims, dflt, pool if rng.random() > 0.08 else [dflt], rng.choice([0.2, 0.5, 0.8]))
+        fmt = [l for l in range(depth) if rng.random() < 0.4] if rng.random() < 0.6 else []
+        yield {"prop": PROP, "op": "fromU", "kind": rng.choice(["fiber", "tensor"]), "d": depth,
+               "dflt": dflt, "dims": dims, "nest": nest, "fmt": fmt}
+    # --- yaml: leaf fibers with multi-digit coordinates and float / negative defaults
+    leafs = list(H.all_leaf_fibers(3, [0, 1, 2.5]))
+    for dflt in (0.5, 7.0, -3):
+        for tr in leafs:
+            for kind in ("fiber", "tensor"):
+                yield {"prop": PROP, "op": "yaml", "kind": kind, "d": 1, "dflt": dflt, "name": "L",
+                       "build": {"tree": tr, "cmap": CMAPS[0]}}
+    # special names / rank ids
+    two = [[0, [[1, 2]]], [2, [[0, 5], [1, 0]]]]
+    for nm in NAMES_WIDE:
+        yield {"prop": PROP, "op": "yaml", "kind": "tensor", "d": 2, "dflt": 0, "name": nm,
+               "build": {"tree": two, "rank_ids": [nm, "B"]}}
+        yield {"prop": PROP, "op": "yaml", "kind": "tensor", "d": 0, "dflt": 0, "name": nm,
+               "build": {"rank0": 3, "how": "ctor"}}
+    # fibers with declared shapes (Fiber.fromUncompressed), every small nest
+    for depth in (1, 2):
+        for dims in _dims_upto(depth, 4):
+            n = 1
+            for x in dims:
+                n *= x
+            for dflt, v in ((0, 3), (7, 0)):
+                for bits in itertools.product([False, True], repeat=n):
+                    nest = _nest_from_flat(dims, [v if b else dflt for b in bits])
+                    yield {"prop": PROP, "op": "yaml", "kind": "fiber", "d": depth, "dflt": dflt, "name": "",
+                           "build": {"fiber_nest": nest}}
+    # inner fibers built with default 0 inside Tensor.fromFiber(default=7); declared shape larger than needed
+    subs = list(H.all_leaf_fibers(2, [0, 7]))
+    for combo in itertools.product([None] + subs, repeat=2):
+        tr = [[c, s2] for c, s2 in enumerate(combo) if s2 is not None]
+        yield {"prop": PROP, "op": "yaml", "kind": "tensor", "d": 2, "dflt": 7, "name": "",
+               "build": {"tree": tr, "inner_dflt": 0}}
+        yield {"prop": PROP, "op": "yaml", "kind": "tensor", "d": 2, "dflt": 0, "name": "",
+               "build": {"tree": tr, "extra_shape": [1, 2]}}
+    for i in range(400 if quick else 16000):
+        depth = rng.choice([1, 2, 2, 3, 3, 4])
+        dflt = rng.choice(DFLTS_WIDE)
+        name = rng.choice(NAMES_WIDE + ["", "T"])
+        r = rng.random()
+        if r < 0.45:
+            pool = rng.choice([INTS, FLOATS, INTS + FLOATS])
+            b = {"tree": H.gen_tree(rng, depth, rng.choice([2, 3, 4, 5]), pool, dflt)}
+            kind = rng.choice(["tensor", "tensor", "fiber"])
+            if rng.random() < 0.5:
+                b["cmap"] = rng.choice(CMAPS)
+            if kind == "tensor":
+                if rng.random() < 0.3:
+                    b["inner_dflt"] = rng.choice([0, 0, 1])
+                if rng.random() < 0.3:
+                    b["extra_shape"] = [rng.choice([0, 1, 3]) for _ in range(depth)]
+                if rng.random() < 0.3:
+                    ids = rng.sample(NAMES_WIDE + ["A", "B", "C", "D"], depth)
+                    b["rank_ids"] = ids
+            yield {"prop": PROP, "op": "yaml", "kind": kind, "d": depth, "dflt": dflt, "name": name, "build": b}
+        elif r < 0.65:
+            dims = [rng.choice([1, 2, 3, 4]) for _ in range(depth)]
+            nest = _rand_nest(rng, dims, dflt, rng.choice([INTS, FLOATS]), rng.choice([0.3, 0.6, 0.9]))
+            yield {"prop": PROP, "op": "yaml", "kind": "fiber", "d": depth, "dflt": dflt, "name": "",
+                   "build": {"fiber_nest": nest}}
+        else:
+            dims = [rng.choice([1, 2, 3]) for _ in range(depth)]
+            nest = _rand_nest(rng, dims, dflt, rng.choice([INTS, FLOATS]), rng.choice([0.3, 0.6]))
+            tf = rng.choice(TRANSFORMS + [["flatten2"], ["flatten2"]])
+            if tf is not None and (depth < 2 or (tf[0] == "flatten" and tf[1] + tf[2] >= depth)
+                                   or (tf[0] == "split" and tf[2] >= depth)
+                                   or (tf[0] == "flatten2" and depth < 3)):
+                tf = None
+            yield {"prop": PROP, "op": "yaml", "kind": "tensor", "d": depth, "dflt": dflt, "name": name,
+                   "build": {"nest": nest, "transform": tf, "perm_seed": rng.randrange(1000)}}
+    # --- random: extents beyond one digit
+    for shape in ([12], [11, 2], [2, 11], [10, 1, 2]):
+        for q in (0.0, 0.25, 0.5, 0.75, 1.0):
+            for dflt in (0, 7):
+                for seed in ((0, 1) if quick else (0, 1, 2, 3)):
+                    for kind in ("fiber", "tensor"):
+                        yield {"prop": PROP, "op": "random", "kind": kind, "shape": shape, "density": q,
+                               "interval": 10, "seed": seed, "dflt": dflt}
+
+
 def gen(seed, tier):
     rng = random.Random(seed)
     yield from _gen_fromU(rng, tier)
     yield from _gen_yaml(rng, tier)
     yield from _gen_random(rng, tier)
+    yield from _gen_wide(random.Random(seed + 1), tier)
 
 
 # ---------------------------------------------------------------------------------------
@@ -257,6 +379,8 @@ def _run_fromU(case):
         ids = [f"R{len(dims) - 1 - i}" for i in range(len(dims))]
         obj, e = _try(lambda: ft.Tensor.fromUncompressed(rank_ids=ids, root=case["nest"], default=dflt))
         root = obj.getRoot() if obj is not None else None
+    if not e and case.get("fmt"):
+        _, e = _try(lambda: _set_format_u(obj, root, case["fmt"], case["kind"] == "tensor"))
     if e:
         errs["build"] = e
         impl.update({"tree": None, "shape": None, "unc": None, "unc0": None})
@@ -281,11 +405,40 @@ def _run_fromU(case):
             errs["unc0"] = "NOT-A-NEST-OF-VALUES"
 
         side["result_unchanged_by_uncompress"] = snap(root) == impl["tree"]
+        # the same object asked again answers the same; the answer is made of fresh, pairwise distinct lists
+        u2, _ = _try(lambda: root.uncompress(list(dims)))
+        side["uncompress_repeatable"] = _unc(u2, len(dims)) == impl["unc"]
+        if isinstance(u, list) and isinstance(u2, list):
+            ids = _list_ids(u) + _list_ids(u2)
+            side["uncompress_lists_fresh"] = len(ids) == len(set(ids)) and not (set(ids) & set(_list_ids(case["nest"])))
     side["nest_unchanged"] = case["nest"] == nest0 and _types(case["nest"]) == _types(nest0)
     case["impl"], case["side"] = impl, side
     if errs:
         case["implerr"] = errs
     return case
+
+
+def _list_ids(n):
+    return ([id(n)] + [i for x in n for i in _list_ids(x)]) if isinstance(n, list) else []
+
+
+def _set_format_u(obj, root, levels, is_tensor):
+    """rank format "U" on the given levels: Tensor.setFormat, or each unowned fiber's own RankAttrs"""
+    Fiber, Payload = H.ft().Fiber, H.ft().Payload
+    if is_tensor:
+        ids = obj.getRankIds()
+        for l in levels:
+            obj.setFormat(ids[l], "U")
+        return
+
+    def walk(f, lvl):
+        if lvl in levels:
+            f.getRankAttrs().setFormat("U")
+        for p in f.payloads:
+            p = Payload.get(p)
+            if isinstance(p, Fiber):
+                walk(p, lvl + 1)
+    walk(root, 0)
 
 
 def _types(n):
@@ -322,11 +475,18 @@ def _build_yaml_obj(case):
             t = ft.Tensor.fromUncompressed(rank_ids=[], root=b["rank0"])
             t.setName(name)
         return t
+    if "fiber_nest" in b:     # a fiber that carries declared shapes
+        return ft.Fiber.fromUncompressed(copy.deepcopy(b["fiber_nest"]), default=dflt)
     if "tree" in b:
-        f = _build_fiber(b["tree"], d, dflt)
+        tree = _cmap(b["tree"], b["cmap"]) if b.get("cmap") else b["tree"]
+        f = _build_fiber(tree, d, b.get("inner_dflt", dflt) if case["kind"] == "tensor" else dflt)
         if case["kind"] == "fiber":
             return f
-        ids = [f"R{d - 1 - i}" for i in range(d)]
+        ids = b.get("rank_ids") or [f"R{d - 1 - i}" for i in range(d)]
+        if b.get("extra_shape"):   # a declared shape larger than needed
+            est = f.estimateShape() if d > 0 else []
+            shape = [x + y for x, y in zip(est, b["extra_shape"])]
+            return ft.Tensor.fromFiber(rank_ids=ids, fiber=f, shape=shape, default=dflt, name=name)
         return ft.Tensor.fromFiber(rank_ids=ids, fiber=f, default=dflt, name=name)
     ids = [chr(ord("A") + i) for i in range(d)]
     t = ft.Tensor.fromUncompressed(rank_ids=ids, root=copy.deepcopy(b["nest"]), default=dflt, name=name)
@@ -344,8 +504,24 @@ def _build_yaml_obj(case):
             t = t.swapRanks(tf[1])
         elif tf[0] == "flatten-unflatten":
             t = t.flattenRanks().unflattenRanks()
+        elif tf[0] == "flatten2":
+            t = t.flattenRanks().flattenRanks()
         t.setName(name)   # transforms decorate the name; the round trip is what is examined
     return t
+
+
+def _cmap(tree, cmap):
+    if not isinstance(tree, list):
+        return tree
+    return [[cmap[c], _cmap(sub, cmap)] for c, sub in tree]
+
+
+def _fiber_ids(root):
+    Fiber, Payload = H.ft().Fiber, H.ft().Payload
+    root = Payload.get(root)
+    if not isinstance(root, Fiber):
+        return []
+    return [id(root)] + [i for p in root.payloads for i in _fiber_ids(p)]
 
 
 def _build_fiber(tree, depth, dflt):
@@ -378,6 +554,7 @@ def _run_yaml(case):
     else:
         depth = case["d"]
         orig = {"tree": snap(root), "rank_ids": [], "shape": [], "name": ""}
+        orig["fshape"] = _plain(_try(lambda: obj.getShape())[0])
     orig["depth"] = depth
     # the leaf default the object really has (some transforms, e.g. unflattenRanks, do not carry it)
     odflt = _odflt(obj, is_tensor, depth, case)
@@ -412,16 +589,38 @@ def _run_yaml(case):
     with tempfile.TemporaryDirectory(prefix="c13-") as tmp:
         path = os.path.join(tmp, "x.yaml")
         _, e = _try(lambda: obj.dump(path))
-        loaded = None
+        loaded = cloaded = None
         if e:
             errs["dump"] = e
         else:
+            text1 = open(path).read()
             if is_tensor:
                 loaded, e = _try(lambda: Tensor.fromYAMLfile(path))
+                # the deprecated loader
+                cloaded, ce = _try(lambda: Tensor(yamlfile=path))
+                if ce:
+                    errs["ctor_load"] = ce
             else:
-                loaded, e = _try(lambda: Fiber.fromYAMLfile(path, default=odflt))
+                # a fiber file holds neither default nor shape: both are loader arguments
+                own = obj.getRankAttrs().getShape()
+                kw = {"shape": own} if own is not None else {}
+                loaded, e = _try(lambda: Fiber.fromYAMLfile(path, default=odflt, **kw))
             if e:
                 errs["load"] = e
+            # the same object dumped again writes the same file
+            path2 = os.path.join(tmp, "y.yaml")
+            _, e2 = _try(lambda: obj.dump(path2))
+            side["dump_repeatable"] = e2 is None and open(path2).read() == text1
+    if is_tensor:
+        if cloaded is None:
+            impl["ctor"] = None
+        else:
+            croot = cloaded.getRoot()
+            a, _e1 = _try(lambda: bool(cloaded == obj))
+            b2, _e2 = _try(lambda: bool(obj == cloaded))
+            impl["ctor"] = {"tree": snap(croot), "rank_ids": [json.dumps(_plain(r)) for r in cloaded.getRankIds()],
+                            "shape": _plain(cloaded.getShape()), "name": cloaded.getName(),
+                            "eq": bool(a) and bool(b2)}
     if loaded is None:
         impl["loaded"] = None
         impl["eq"] = impl["eq_rev"] = False
@@ -430,8 +629,14 @@ def _run_yaml(case):
         if is_tensor:
             impl["loaded"] = {"tree": snap(lroot), "rank_ids": [json.dumps(_plain(r)) for r in loaded.getRankIds()],
                               "shape": _plain(loaded.getShape()), "name": loaded.getName()}
+            if depth >= 1:
+                impl["loaded_dflt"] = _num(Payload.get(loaded.getDefault()))
         else:
             impl["loaded"] = {"tree": snap(lroot), "rank_ids": [], "shape": [], "name": ""}
+            impl["loaded_fshape"] = _plain(_try(lambda: loaded.getShape())[0])
+        # no fiber object is reachable twice, none is shared with the original
+        lids = _fiber_ids(lroot)
+        side["loaded_fibers_fresh"] = len(lids) == len(set(lids)) and not (set(lids) & set(_fiber_ids(root)))
         a, e1 = _try(lambda: bool(loaded == obj))
         b, e2 = _try(lambda: bool(obj == loaded))
         if e1 or e2:
@@ -567,7 +772,16 @@ def _leaves(tree):
 # Known failure classes (root causes), in priority order.  A failing clause is attributed to a class
 # only when the case satisfies the class's input predicate; a failing clause that cannot be attributed
 # makes the signature "unclassified" and is therefore never hidden by known_findings.json.
-CLASSES = ["U2:fiber-shape-of-all-default-nest"]
+CLASSES = ["U2:fiber-shape-of-all-default-nest", "U3:uncompress-of-unowned-fiber-with-format-U-above-the-leaf",
+           "Y4:fiber-yaml-drops-declared-shapes-of-nested-fibers", "Y5:deprecated-ctor-loader-rejects-rank0"]
+
+
+def _absent_below(nest, dflt, level, levels):
+    """does some list at one of `levels` (0 = outermost) have an all-default child sub-nest?"""
+    if not isinstance(nest, list) or not nest or not isinstance(nest[0], list):
+        return False
+    here = level in levels and any(all(x == dflt for x in _flat(ch)) for ch in nest)
+    return here or any(_absent_below(ch, dflt, level + 1, levels) for ch in nest)
 
 
 def _attribute(case, clause):
@@ -579,6 +793,18 @@ def _attribute(case, clause):
             # the one-element shape itself, and uncompress() without argument which uses it
             if clause in ("shape", "uncompress-noarg"):
                 return CLASSES[0]
+        upper = [l for l in case.get("fmt") or [] if l < len(case["dims"]) - 1]
+        if (clause in ("uncompress", "uncompress-noarg") and case["kind"] == "fiber" and upper
+                and (alldef or _absent_below(case["nest"], case["dflt"], 0, upper))):
+            return CLASSES[1]
+    if op == "yaml":
+        orig, b = case.get("orig") or {}, case.get("build") or {}
+        fs, lfs = orig.get("fshape"), impl.get("loaded_fshape")
+        if (clause == "fiber-shape" and case["kind"] == "fiber" and "fiber_nest" in b and orig.get("depth", 0) >= 2
+                and isinstance(fs, list) and isinstance(lfs, list) and fs[:1] == lfs[:1]):
+            return CLASSES[2]
+        if clause == "ctor-loads" and case["kind"] == "tensor" and orig.get("depth") == 0:
+            return CLASSES[3]
     return None
 
 
